@@ -42,6 +42,27 @@ def FB.read (b : FB) (n : Nat) : FB × List UInt8 :=
 /-- `FixedBuffer.Reset` -/
 def FB.reset (b : FB) : FB := { b with r := 0, data := [] }
 
+/-- the exported FixedBuffer API as operations -/
+inductive FOp
+  | w (d : List UInt8) | r (n : Nat) | reset
+deriving Repr, DecidableEq
+
+inductive FRes
+  | wrote (n : Nat) (full : Bool) | data (bs : List UInt8) | empty | unit
+deriving Repr, DecidableEq
+
+/-- `Read` on an empty buffer is `errReadEmpty` -/
+def FB.step (b : FB) : FOp → FB × FRes
+  | .w d => let (b', n, full) := b.write d; (b', .wrote n full)
+  | .r n => if b.len = 0 then (b, .empty) else let (b', out) := b.read n; (b', .data out)
+  | .reset => (b.reset, .unit)
+
+/-- specification: a bounded FIFO of bytes of capacity `cap` (no r / w / slide) -/
+def qStep (cap : Nat) (q : List UInt8) : FOp → List UInt8 × FRes
+  | .w d => let n := min d.length (cap - q.length); (q ++ d.take n, .wrote n (decide (n < d.length)))
+  | .r n => if q.isEmpty then (q, .empty) else (q.drop n, .data (q.take n))
+  | .reset => ([], .unit)
+
 /-- error codes: `0` is `io.EOF` (the only value `closeWithError` treats specially); others opaque. -/
 abbrev Err := Nat
 
@@ -273,5 +294,70 @@ def World.step (w : World) : WAct → World
       { pool := pool', pipes := w.pipes.set i (s.step a).1 }
 
 def World.exec (w : World) (as : List WAct) : World := as.foldl World.step w
+
+/-! ### several reader threads on one pipe
+
+  `sync.Cond.Signal` wakes ONE parked goroutine, the one that has been waiting longest (ticket order).
+  The pipe is designed for a single reader; this model says what still holds with several, and exhibits
+  what does not (a reader can stay parked although data is buffered). -/
+
+structure MSys where
+  p : Pipe
+  rds : List RPc            -- program counter of each reader thread
+  waitq : List Nat          -- parked readers, longest-waiting first
+  accepted : List UInt8
+  ledger : List (UInt8 × Bool)
+  order : List (Nat × List UInt8)   -- ghost: (reader, bytes) for every Read that returned data, in order
+deriving Repr, DecidableEq
+
+def MSys.init (cap readers : Nat) : MSys :=
+  { p := Pipe.new cap, rds := List.replicate readers .idle, waitq := [], accepted := [], ledger := [], order := [] }
+
+inductive MAct
+  | write (d : List UInt8)
+  | close (e : Err) (fn : Bool)
+  | brk (e : Err)
+  | discard
+  | startRead (i n : Nat)
+  | readerStep (i : Nat)
+deriving Repr, DecidableEq
+
+/-- `c.Signal()` -/
+def msignal (s : MSys) : MSys :=
+  match s.waitq with
+  | [] => s
+  | i :: q =>
+    match s.rds[i]? with
+    | some (.waiting n) => { s with waitq := q, rds := s.rds.set i (.ready n) }
+    | _ => { s with waitq := q }
+
+def MSys.step (s : MSys) : MAct → MSys × Obs
+  | .write d =>
+    let (p', n, e) := s.p.write d
+    (msignal { s with p := p', accepted := s.accepted ++ d.take n }, .wrote n e)
+  | .close e fn => (msignal { s with p := s.p.close e fn }, .unit)
+  | .brk e => (msignal { s with p := s.p.brk e }, .unit)
+  | .discard =>
+    match s.p.b with
+    | none => (s, .discarded 0)
+    | some fb =>
+      ({ s with p := { s.p with b := some fb.reset }, ledger := s.ledger ++ fb.data.map (·, false) },
+        .discarded fb.len)
+  | .startRead i n =>
+    match s.rds[i]? with
+    | some .idle => ({ s with rds := s.rds.set i (.ready n) }, .unit)
+    | _ => (s, .disabled)
+  | .readerStep i =>
+    match s.rds[i]? with
+    | some (.ready n) =>
+      match s.p.readTry n with
+      | (p', .wait) => ({ s with p := p', rds := s.rds.set i (.waiting n), waitq := s.waitq ++ [i] }, .read .wait)
+      | (p', .data bs) =>
+        ({ s with p := p', rds := s.rds.set i .idle, ledger := s.ledger ++ bs.map (·, true),
+                  order := s.order ++ [(i, bs)] }, .read (.data bs))
+      | (p', .err e f) => ({ s with p := p', rds := s.rds.set i .idle }, .read (.err e f))
+    | _ => (s, .disabled)
+
+def MSys.exec (s : MSys) (as : List MAct) : MSys := as.foldl (fun s a => (s.step a).1) s
 
 end BfeVerif.C21
